@@ -363,12 +363,16 @@ class C16:
                 path = ev['args']['path']
                 ex.stats['oracle_sim'] += 1
                 st = fs.setdefault(path, {'ack': None})
-                if rec['outcome'] == 'ok' and fired and tags['fmt'] == 'h5':
-                    # h5py / h5netcdf report some write errors only from
-                    # finalizers, where Python discards them: a save that
-                    # 'succeeded' while a write failed is not relied upon
+                if rec['outcome'] == 'ok' and fired:
+                    # third-party writers below HoloPy do not all honour the
+                    # syscall contract: h5py / h5netcdf report some write
+                    # errors only from finalizers (discarded by Python), and
+                    # Pillow's TIFF encoder writes to the descriptor directly
+                    # without retrying a short write.  A save that
+                    # 'succeeded' while an injected fault fired inside it is
+                    # therefore not relied upon (not HoloPy's code).
                     st['ack'] = None
-                    ex.fault('io-error-swallowed-by-hdf5-stack', 1)
+                    ex.fault('io-fault-absorbed-by-third-party-writer', 1)
                 elif rec['outcome'] == 'ok':
                     st['ack'] = (_d(rec['payload'])['saved'], tags)
                 else:
